@@ -1,6 +1,5 @@
 \* spec mutant: the mechanism variant "debug_copies" (see GlomErrors.tla) must violate a law
 CONSTANTS
-  Fix = TRUE
   Mutant = "debug_copies"
   MinDepth = 0
   MaxDepth = 1
